@@ -5907,6 +5907,11 @@ class PyCdlib:
         self.isohybrid_mbr.new(efi, mac, part_entry, mbr_id, part_offset,
                                geometry_sectors, geometry_heads, part_type)
 
+        # The boot file address in the MBR and the GPT/APM partitions are
+        # filled in when the extents are assigned, so make sure that happens
+        # even if nothing else changes before the ISO is written.
+        self._finish_add(0, 0)
+
     def rm_isohybrid(self):
         # type: () -> None
         """
